@@ -444,14 +444,14 @@ Section Bystander.
   Lemma byst_cancel_timeout a c : byst a (cancel_timeout a c).
   Proof.
     unfold cancel_timeout. destruct (s_timeout (scopes a c)); [|apply byst_refl].
-    eapply byst_trans; [apply byst_timer_cancel|]. apply byst_exact; [reflexivity|reflexivity|auto].
+    eapply byst_trans; [apply byst_timer_cancel|]. apply byst_exact; [reflexivity|reflexivity|intros Hk; exact Hk].
   Qed.
 
   Lemma byst_scope_cancel a c b : wait_link a -> byst a (scope_cancel a c b).
   Proof.
     intros WL. unfold scope_cancel. destruct (s_cancelled (scopes a c)); [apply byst_refl|].
     set (s2 := upd_scope (cancel_timeout a c) c _).
-    assert (K : byst a s2) by (eapply byst_trans; [apply byst_cancel_timeout|apply byst_exact; [reflexivity|reflexivity|auto]]).
+    assert (K : byst a s2) by (eapply byst_trans; [apply byst_cancel_timeout|apply byst_exact; [reflexivity|reflexivity|intros Hk; exact Hk]]).
     destruct (s_host (scopes s2 c)); [|exact K].
     eapply byst_trans; [exact K|]. apply byst_deliver_top.
     assert (W2 : wait_link (cancel_timeout a c)).
@@ -465,14 +465,15 @@ Section Bystander.
     intros Ht Hg. unfold suspend_on.
     set (s2 := upd_task (upd_fut a g (fun x => mkFut (f_st x) (Some t'))) t' (tk_waiter (Some g))).
     assert (K : byst a s2).
-    { apply byst_exact; [reflexivity|reflexivity|auto].
+    { apply byst_exact; [| |intros Hk; exact Hk].
       - cbn. unfold upd. destruct (Nat.eqb_spec t t'); [congruence|reflexivity].
       - cbn. unfold upd. destruct (Nat.eqb_spec f g); [congruence|reflexivity]. }
     assert (Kc : forall h, byst s2 (call_soon s2 h)).
-    { intros h. apply byst_exact; [reflexivity|reflexivity|auto]. intros H. cbn. apply in_or_app. now left. }
+    { intros h. apply byst_exact; [reflexivity|reflexivity|]. intros H. cbn. apply in_or_app. now left. }
     destruct (f_st (futs a g)); try (eapply byst_trans; [exact K|apply Kc]).
     destruct (k_must (tasks a t')); [|exact K].
-    eapply byst_trans; [exact K|]. eapply byst_trans; [apply byst_fut_complete; discriminate|].
+    eapply byst_trans; [exact K|].
+    apply (byst_trans s2 (fut_complete s2 g (FCanc (k_msg (tasks a t'))))); [apply byst_fut_complete; discriminate|].
     now apply byst_upd_task_other.
   Qed.
 
@@ -481,7 +482,7 @@ Section Bystander.
     intros Ht Hf. unfold park, new_fut.
     eapply byst_trans; [|now apply byst_upd_task_other].
     eapply byst_trans; [|apply byst_suspend_other; [exact Ht|lia]].
-    apply byst_exact; [reflexivity|reflexivity|auto]. cbn. unfold upd. destruct (Nat.eqb_spec f (nfut a)); [lia|reflexivity].
+    apply byst_exact; [reflexivity| |intros Hk; exact Hk]. cbn. unfold upd. destruct (Nat.eqb_spec f (nfut a)); [lia|reflexivity].
   Qed.
 
   Lemma byst_ret_other a t' r : t' <> t -> f < nfut a -> byst a (fst (ret_to_puppet a t' r)).
@@ -492,11 +493,463 @@ Section Bystander.
     { unfold s1. destruct r; try (split; [apply byst_refl|reflexivity]). split; [now apply byst_upd_task_other|reflexivity]. }
     destruct K1 as [K1 E1].
     eapply byst_trans; [exact K1|]. eapply byst_trans; [apply byst_park_other; [exact Ht|now rewrite E1]|].
-    apply byst_exact; [reflexivity|reflexivity|auto].
+    apply byst_exact; [reflexivity|reflexivity|intros Hk; exact Hk].
   Qed.
 
   Lemma byst_incoming_other a t' fo : t' <> t -> byst a (fst (incoming a t' fo)).
   Proof.
-    intros Ht. unfold incoming. cbn [fst]. eapply byst_trans; [now apply byst_upd_task_other|]. apply byst_exact; [reflexivity|reflexivity|auto].
+    intros Ht. unfold incoming. cbn [fst].
+    match goal with |- byst a (set_running ?x ?v) => apply (byst_trans a x) end;
+      [now apply byst_upd_task_other|apply byst_exact; [reflexivity|reflexivity|intros Hk; exact Hk]].
   Qed.
 End Bystander.
+
+(* ---------------- the walk to the cancelled scope, across callbacks ---------------- *)
+Lemma reaches_dq a b t c : dq a b -> reaches a t c -> reaches b t c.
+Proof.
+  intros Q [D [x [Hc Hv]]]. split; [now rewrite (dq_done _ _ Q)|]. exists x. split; [now rewrite (dq_cur _ _ Q)|].
+  apply (vis_view b a c x); [|exact Hv]. intros y. pose proof (dq_scope _ _ Q y) as E.
+  now rewrite (vw_shield _ _ E), (vw_cancelled _ _ E), (vw_parent _ _ E).
+Qed.
+
+(* cancelling x either leaves the walk to c intact or puts x on it *)
+Lemma vis_cancel_split a b x c k :
+  (forall y, y <> x -> scopes b y = scopes a y) ->
+  s_parent (scopes b x) = s_parent (scopes a x) -> s_shield (scopes b x) = s_shield (scopes a x) ->
+  vis a c k -> vis b c k \/ vis b x k.
+Proof.
+  intros Eo Ep Es H. induction H as [|y p E1 E2 E3 H IH]; [left; apply vis_here|].
+  destruct (Nat.eq_dec y x) as [->|Hne]; [right; apply vis_here|].
+  destruct IH as [IH|IH]; [left|right]; (eapply vis_up; [| | |exact IH]); rewrite (Eo y Hne); assumption.
+Qed.
+
+Section Track.
+  Variables (t : tid) (f : fid) (c : sid).
+
+  (* t can take a request and is blocked on the pending future f *)
+  Definition elig_t (s : st) : Prop :=
+    k_done (tasks s t) = None /\ k_must (tasks s t) = false /\ k_started (tasks s t) = true /\
+    k_waiter (tasks s t) = Some f /\ f_st (futs s f) = FPend.
+
+  Definition trk (s : st) : Prop :=
+    reaches s t c /\ s_cancelled (scopes s c) = true /\ s_host (scopes s c) <> None.
+
+  Record Good (s : st) : Prop := {
+    gd_tl : TreeL s;
+    gd_k : KInv s;
+    gd_run : running s <> Some t;
+    gd_host : forall y, s_active (scopes s y) = true -> s_host (scopes s y) <> None
+  }.
+
+  Lemma Good_kframe a b : Good a -> kframe a b -> Good b.
+  Proof.
+    intros [G1 G2 G3 G4] K. constructor.
+    - now apply (TreeL_kframe a).
+    - apply (KInv_kq a); [exact G2|now apply kq_kframe].
+    - now rewrite (kf_running _ _ K).
+    - intros y. rewrite (core_active _ _ (kf_scopes _ _ K y)), (core_host _ _ (kf_scopes _ _ K y)). apply G4.
+  Qed.
+
+  (* same links, hosts, kernel objects *)
+  Lemma Good_same a b :
+    Good a -> nscope b = nscope a -> running b <> Some t ->
+    (forall x, s_active (scopes b x) = s_active (scopes a x) /\ s_parent (scopes b x) = s_parent (scopes a x) /\
+               s_children (scopes b x) = s_children (scopes a x) /\ s_tasks (scopes b x) = s_tasks (scopes a x) /\
+               s_host (scopes b x) = s_host (scopes a x)) ->
+    tasks b = tasks a -> futs b = futs a -> nfut b = nfut a -> Good b.
+  Proof.
+    intros [G1 G2 G3 G4] En Er Es Et Ef Enf. constructor.
+    - apply (TreeL_ext a b G1 En); [intros x; destruct (Es x) as [A [B [C [D _]]]]; now repeat split|intros x; now rewrite Et].
+    - apply (KInv_kq a); [exact G2|]. now apply kq_tasks_same.
+    - exact Er.
+    - intros y. destruct (Es y) as [A [_ [_ [_ H]]]]. rewrite A, H. apply G4.
+  Qed.
+
+  (* the delivery of a scope t reaches cancels t's wait *)
+  Lemma deliver_hits a x :
+    Good a -> elig_t a -> reaches a t x -> f_st (futs (deliver_top a x) f) <> FPend.
+  Proof.
+    intros G [Hd [Hm [Hs [Hw Hp]]]] [_ [k [Hc Hv]]].
+    destruct (deliver_top_spec a x (k_link _ (gd_k _ G))) as [K [_ [Req _]]].
+    assert (R : requested (deliver_top a x) t (S x)).
+    { apply (Req k t); [now apply vis_dreach; [apply G| |]|].
+      unfold elig. refine (conj Hd (conj Hm (conj _ (conj (or_intror Hs) _)))).
+      - apply (gd_run _ G).
+      - now rewrite Hw. }
+    destruct R as [[_ [_ Hn]]|[f' [_ [Hw' [Hf _]]]]].
+    - rewrite (tcore_waiter _ _ (kf_tasks _ _ K t)), Hw in Hn. discriminate.
+    - rewrite (tcore_waiter _ _ (kf_tasks _ _ K t)), Hw in Hw'. inversion Hw'; subst f'. rewrite Hf. discriminate.
+  Qed.
+
+  Lemma trk_kframe a b : kframe a b -> trk a -> trk b.
+  Proof.
+    intros K [R [C H]]. split; [now apply (reaches_kframe a b t c K)|].
+    split; [now rewrite (core_cancelled _ _ (kf_scopes _ _ K c))|now rewrite (core_host _ _ (kf_scopes _ _ K c))].
+  Qed.
+
+  Lemma trk_dq a b : dq a b -> trk a -> trk b.
+  Proof.
+    intros Q [R [C H]]. pose proof (dq_scope _ _ Q c) as E. split; [now apply (reaches_dq a b)|].
+    split; [now rewrite (vw_cancelled _ _ E)|now rewrite (vw_host _ _ E)].
+  Qed.
+
+  (* cancel(): the walk to c survives, or the cancelled scope was on it and its delivery hit t *)
+  Lemma cancel_keeps_or_hits a x bdl :
+    Good a -> elig_t a -> trk a ->
+    Good (scope_cancel a x bdl) /\
+    (f_st (futs (scope_cancel a x bdl) f) = FPend -> trk (scope_cancel a x bdl)).
+  Proof.
+    intros G El Tk. unfold scope_cancel. destruct (s_cancelled (scopes a x)) eqn:Ex; [split; [exact G|auto]|].
+    set (s1 := cancel_timeout a x).
+    assert (G1 : Good s1).
+    { pose proof (treq_cancel_timeout a x) as K. apply (Good_same a s1 G).
+      - apply (tq_nscope _ _ K).
+      - unfold s1, cancel_timeout. destruct (s_timeout (scopes a x)); [cbn|]; apply G.
+      - intros y. now rewrite (tq_active _ _ K), (tq_parent _ _ K), (tq_children _ _ K), (tq_stasks _ _ K), (tq_host _ _ K).
+      - unfold s1, cancel_timeout. destruct (s_timeout (scopes a x)); reflexivity.
+      - unfold s1, cancel_timeout. destruct (s_timeout (scopes a x)); reflexivity.
+      - unfold s1, cancel_timeout. destruct (s_timeout (scopes a x)); reflexivity. }
+    assert (T1 : trk s1) by (apply (trk_dq a); [apply dq_cancel_timeout|exact Tk]).
+    assert (E1 : elig_t s1).
+    { destruct El as [A [B [C [D E]]]]. unfold elig_t, s1, cancel_timeout.
+      destruct (s_timeout (scopes a x)); cbn; now repeat split. }
+    assert (Ex1 : s_cancelled (scopes s1 x) = false).
+    { unfold s1. rewrite (vw_cancelled _ _ (dq_scope _ _ (dq_cancel_timeout a x) x)). exact Ex. }
+    set (s2 := upd_scope s1 x (fun y => sc_bydeadline bdl (sc_cancelled true y))).
+    assert (Eo : forall y, y <> x -> scopes s2 y = scopes s1 y).
+    { intros y Hy. unfold s2. cbn. unfold upd. destruct (Nat.eqb_spec y x); [contradiction|reflexivity]. }
+    assert (Ec2 : scopes s2 x = sc_bydeadline bdl (sc_cancelled true (scopes s1 x))).
+    { unfold s2. cbn. unfold upd. now rewrite Nat.eqb_refl. }
+    assert (G2 : Good s2).
+    { apply (Good_same s1 s2 G1); try reflexivity; [apply G1|].
+      intros y. destruct (Nat.eq_dec y x) as [->|Hy]; [rewrite Ec2|rewrite (Eo y Hy)]; now repeat split. }
+    assert (E2 : elig_t s2) by exact E1.
+    destruct T1 as [[Hd [k [Hc Hv]]] [Cc Hh]].
+    assert (Hxc : x <> c) by (intros ->; congruence).
+    assert (Cc2 : s_cancelled (scopes s2 c) = true /\ s_host (scopes s2 c) <> None).
+    { rewrite (Eo c (fun E => Hxc (eq_sym E))). now split. }
+    destruct (vis_cancel_split s1 s2 x c k Eo) as [V|V]; [now rewrite Ec2|now rewrite Ec2|exact Hv| |].
+    - (* the walk to c is intact *)
+      assert (T2 : trk s2) by (split; [split; [exact Hd|exists k; now split]|exact Cc2]).
+      destruct (s_host (scopes s2 x)); [|split; [exact G2|intros _; exact T2]].
+      split; [apply (Good_kframe s2); [exact G2|apply kframe_deliver_top]|].
+      intros _. apply (trk_kframe s2); [apply kframe_deliver_top|exact T2].
+    - (* x is on t's walk: it is active, hence hosted, and its delivery reaches t *)
+      assert (Ax : s_active (scopes s2 x) = true).
+      { pose proof (tl_cur_act _ (gd_tl _ G2) t k Hc) as Ak. clear - V Ak G2.
+        induction V as [|y p F1 F2 F3 V IH]; [exact Ak|]. apply IH. apply (tl_par_act _ (gd_tl _ G2) y p Ak F3). }
+      destruct (s_host (scopes s2 x)) eqn:Ehx; [|exfalso; now apply (gd_host _ G2 x Ax)].
+      split; [apply (Good_kframe s2); [exact G2|apply kframe_deliver_top]|].
+      intros Hp. exfalso. apply (deliver_hits s2 x G2 E2); [|exact Hp]. split; [exact Hd|]. exists k. now split.
+  Qed.
+End Track.
+
+Section Steps.
+  Variables (t : tid) (f : fid) (c : sid).
+
+  Definition Out (a b : st) : Prop :=
+    Good t a ->
+    Good t b /\ byst t f a b /\ (elig_t t f a -> trk t c a -> f_st (futs b f) = FPend -> trk t c b).
+
+  Lemma elig_byst a b : KInv a -> byst t f a b -> elig_t t f a -> f_st (futs b f) = FPend -> elig_t t f b.
+  Proof.
+    intros K B [Hd [Hm [Hs [Hw Hp]]]] Hpb. pose proof (by_core _ _ _ _ B) as E.
+    unfold elig_t. rewrite (tcore_done _ _ E), (tcore_started _ _ E), (tcore_waiter _ _ E).
+    refine (conj Hd (conj _ (conj Hs (conj Hw Hpb)))).
+    destruct (by_pend _ _ _ _ B Hp (k_link _ K t f Hw Hp) Hw Hm) as [[_ M]|[N _]]; [exact M|congruence].
+  Qed.
+
+  Lemma out_refl a : Out a a.
+  Proof. intros G. split; [exact G|]. split; [apply byst_refl|auto]. Qed.
+
+  Lemma out_trans a b d : Out a b -> Out b d -> Out a d.
+  Proof.
+    intros H1 H2 G. destruct (H1 G) as [Gb [B1 T1]]. destruct (H2 Gb) as [Gd [B2 T2]].
+    split; [exact Gd|]. split; [eapply byst_trans; eauto|].
+    intros El Tk Hp.
+    assert (Hpb : f_st (futs b f) = FPend).
+    { destruct (f_st (futs b f)) eqn:E; [reflexivity| | |];
+        (rewrite (by_done _ _ _ _ B2) in Hp; [congruence|rewrite E; discriminate]). }
+    apply T2; [now apply (elig_byst a b (gd_k _ _ G))|now apply T1|exact Hp].
+  Qed.
+
+  (* a step that keeps the delivery view, t's record and f *)
+  Lemma out_neutral a b : (Good t a -> Good t b) -> byst t f a b -> dq a b -> Out a b.
+  Proof. intros HG B Q G. split; [now apply HG|]. split; [exact B|]. intros _ Tk _. now apply (trk_dq t c a). Qed.
+
+  Lemma out_fut_complete a g v : v <> FPend -> Out a (fut_complete a g v).
+  Proof.
+    intros Hv. apply out_neutral; [|now apply byst_fut_complete|apply dq_fut_complete].
+    intros G. apply (Good_kframe t a); [exact G|apply kframe_fut_complete].
+  Qed.
+
+  Lemma out_deliver_top a x : Out a (deliver_top a x).
+  Proof.
+    intros G. split; [apply (Good_kframe t a); [exact G|apply kframe_deliver_top]|].
+    split; [apply byst_deliver_top, (gd_k _ _ G)|]. intros _ Tk _. apply (trk_kframe t c a); [apply kframe_deliver_top|exact Tk].
+  Qed.
+
+  Lemma out_scope_cancel a x b : Out a (scope_cancel a x b).
+  Proof.
+    intros G. split; [|split; [apply byst_scope_cancel, (gd_k _ _ G)|]].
+    - destruct (s_cancelled (scopes a x)) eqn:Ex; [unfold scope_cancel; now rewrite Ex|].
+      (* Good t does not depend on t: reuse the tracking lemma's first half through a trivial instance *)
+      unfold scope_cancel. rewrite Ex.
+      set (s1 := cancel_timeout a x).
+      assert (G1 : Good t s1).
+      { pose proof (treq_cancel_timeout a x) as K. apply (Good_same t a s1 G).
+        - apply (tq_nscope _ _ K).
+        - unfold s1, cancel_timeout. destruct (s_timeout (scopes a x)); [cbn|]; apply G.
+        - intros y. now rewrite (tq_active _ _ K), (tq_parent _ _ K), (tq_children _ _ K), (tq_stasks _ _ K), (tq_host _ _ K).
+        - unfold s1, cancel_timeout. destruct (s_timeout (scopes a x)); reflexivity.
+        - unfold s1, cancel_timeout. destruct (s_timeout (scopes a x)); reflexivity.
+        - unfold s1, cancel_timeout. destruct (s_timeout (scopes a x)); reflexivity. }
+      set (s2 := upd_scope s1 x (fun y => sc_bydeadline b (sc_cancelled true y))).
+      assert (G2 : Good t s2).
+      { apply (Good_same t s1 s2 G1); try reflexivity; [apply G1|].
+        intros y. unfold s2. cbn. unfold upd. destruct (Nat.eqb_spec y x); [subst|]; now repeat split. }
+      destruct (s_host (scopes s2 x)); [|exact G2]. apply (Good_kframe t s2); [exact G2|apply kframe_deliver_top].
+    - intros El Tk Hp. now apply (cancel_keeps_or_hits t f c a x b G El Tk).
+  Qed.
+
+  Lemma Good_set_running a : Good t a -> Good t (set_running a None).
+  Proof. intros G. apply (Good_same t a _ G); try reflexivity; [cbn; discriminate|]. intros x; now repeat split. Qed.
+
+  Lemma out_set_running a : Out a (set_running a None).
+  Proof.
+    apply out_neutral; [apply Good_set_running| |apply dq_set_running].
+    apply byst_exact; [reflexivity|reflexivity|intros Hk; exact Hk].
+  Qed.
+
+  Lemma out_scope_timeout a x : Out a (scope_timeout a x).
+  Proof.
+    unfold scope_timeout. destruct (s_deadline (scopes a x)); [|apply out_refl].
+    destruct (Z.leb z (now a)); [apply out_scope_cancel|].
+    apply out_neutral.
+    - intros G. apply (Good_same t a _ G); try reflexivity; [apply G|].
+      intros y. cbn. unfold upd. destruct (Nat.eqb_spec y x); [subst|]; now repeat split.
+    - apply byst_exact; [reflexivity|reflexivity|intros Hk; exact Hk].
+    - constructor; auto. intros y. cbn. unfold upd. destruct (Nat.eqb_spec y x); [subst|]; reflexivity.
+  Qed.
+
+  Lemma out_upd_group a g h : Out a (upd_group a g h).
+  Proof.
+    apply out_neutral; [|apply byst_exact; [reflexivity|reflexivity|intros Hk; exact Hk]|apply dq_upd_group].
+    intros G. apply (Good_same t a _ G); try reflexivity; [apply G|]. intros y; now repeat split.
+  Qed.
+
+  Lemma out_td_tail s3 k g t' : Out s3 (td_tail s3 k g t').
+  Proof.
+    unfold td_tail.
+    set (s4 := match g_fut (groups s3 g) with
+               | Some f0 => match g_tasks (groups s3 g) with [] => fut_complete s3 f0 (FRes 0) | _ :: _ => s3 end
+               | None => s3 end).
+    assert (K4 : Out s3 s4).
+    { unfold s4. destruct (g_fut (groups s3 g)); [|apply out_refl].
+      destruct (g_tasks (groups s3 g)); [apply out_fut_complete; discriminate|apply out_refl]. }
+    clearbody s4.
+    assert (Kc : forall a, Out a (if eff_cancelled a (g_scope (groups a g)) then a
+                                  else scope_cancel a (g_scope (groups a g)) false)).
+    { intros a. destruct (eff_cancelled a _); [apply out_refl|apply out_scope_cancel]. }
+    assert (Kxc : forall e, Out s4 (let s5 := upd_group s4 g (fun x => gr_excs (g_excs x ++ [(t', e)]) x) in
+                                    if eff_cancelled s5 (g_scope (groups s5 g)) then s5
+                                    else scope_cancel s5 (g_scope (groups s5 g)) false)).
+    { intros e. cbv zeta. eapply out_trans; [apply out_upd_group|apply Kc]. }
+    apply (out_trans s3 s4); [exact K4|].
+    destruct (k_done k) as [[v|e|e]|].
+    - destruct (k_startfut k) as [f0|]; [|apply out_refl].
+      destruct (f_st (futs s4 f0)); try apply out_refl. apply out_fut_complete; discriminate.
+    - destruct (k_startfut k) as [f0|].
+      + destruct (f_st (futs s4 f0)).
+        * apply out_fut_complete; discriminate.
+        * destruct (is_cancel e); [apply Kc|apply Kxc].
+        * destruct (is_cancel e); [apply Kc|apply Kxc].
+        * destruct (is_cancel e); [apply out_refl|apply Kxc].
+      + destruct (is_cancel e); [apply Kc|apply Kxc].
+    - destruct (k_startfut k) as [f0|].
+      + destruct (f_st (futs s4 f0)).
+        * apply out_fut_complete; discriminate.
+        * destruct (is_cancel e); [apply Kc|apply Kxc].
+        * destruct (is_cancel e); [apply Kc|apply Kxc].
+        * destruct (is_cancel e); [apply out_refl|apply Kxc].
+      + destruct (is_cancel e); [apply Kc|apply Kxc].
+    - destruct (k_startfut k) as [f0|]; [|apply out_refl].
+      destruct (f_st (futs s4 f0)); try apply out_refl. apply out_fut_complete; discriminate.
+  Qed.
+End Steps.
+
+(* the callback kinds covered: everything but the resumption of a library frame (task start, shielded
+   checkpoint, TaskGroup.__aexit__, start()) *)
+Definition simple_ctl (k : ctl) : bool :=
+  match k with
+  | CIdle | CYield YCheckpoint | CYield YCkIf | CSleep _ _ | CHandleWait _ _ | CDone => true
+  | _ => false
+  end.
+
+Section StepOut.
+  Variables (t : tid) (f : fid) (c : sid).
+
+  Lemma Good_treq a b : Good t a -> treq a b -> KInv b -> running b <> Some t -> Good t b.
+  Proof.
+    intros G K Kb Rb. constructor; [now apply (TreeL_treq a); [apply G|]|exact Kb|exact Rb|].
+    intros y. rewrite (tq_active _ _ K), (tq_host _ _ K). apply G.
+  Qed.
+
+  Lemma out_resume_simple a t' fo :
+    t' <> t -> f < nfut a -> simple_ctl (k_ctl (tasks a t')) = true -> Out t f c a (fst (resume a t' fo)).
+  Proof.
+    intros Ht Hf Hs. unfold resume.
+    pose proof (incoming_ctl a t' fo) as Ec.
+    pose proof (byst_incoming_other t f a t' fo Ht) as B0.
+    pose proof (dq_incoming a t' fo) as Q0. pose proof (treq_incoming a t' fo) as T0.
+    pose proof (kq_incoming a t' fo) as Kq0.
+    assert (Nf : nfut (fst (incoming a t' fo)) = nfut a) by reflexivity.
+    assert (Rn : running (fst (incoming a t' fo)) = Some t') by reflexivity.
+    destruct (incoming a t' fo) as [s inc]. cbn [fst] in *. rewrite Ec.
+    assert (O0 : Out t f c a s).
+    { apply out_neutral; [|exact B0|exact Q0]. intros G. apply (Good_treq a s G T0); [apply (KInv_kq a); [apply G|exact Kq0]|].
+      rewrite Rn. intros E. inversion E. now apply Ht. }
+    (* the two ways the resumed task goes on: back to its program, or yielding again *)
+    assert (Ret : forall s1 r, Out t f c a s1 -> nfut s1 = nfut a -> Out t f c a (fst (ret_to_puppet s1 t' r))).
+    { intros s1 r O1 E1. apply (out_trans t f c a s1); [exact O1|]. apply out_neutral.
+      - intros G. apply (Good_treq s1 _ G (treq_ret_to_puppet s1 t' r)); [apply K_ret, G|cbn; discriminate].
+      - apply byst_ret_other; [exact Ht|now rewrite E1].
+      - apply dq_ret_to_puppet. }
+    destruct (k_ctl (tasks a t')) as [| |[| |x]| | | | | | |] eqn:Ectl; try discriminate.
+    - (* CIdle *)
+      cbn [fst].
+      set (s1 := match inc with Some e => upd_task s t' (tk_held (Some e)) | None => s end).
+      assert (O1 : Out t f c s s1).
+      { unfold s1. destruct inc; [|apply out_refl]. apply out_neutral.
+        - intros G. apply (Good_treq s _ G); [apply treq_upd_task; intros k; reflexivity| |apply G].
+          apply (KInv_kq s); [apply G|apply kq_upd_task; intros k; now left].
+        - now apply byst_upd_task_other.
+        - apply dq_upd_task. intros k; now split. }
+      assert (E1 : nfut s1 = nfut a) by (unfold s1; destruct inc; exact Nf).
+      apply (out_trans t f c a s); [exact O0|]. apply (out_trans t f c s s1); [exact O1|]. apply out_neutral.
+      + intros G. apply (Good_treq s1 _ G); [eapply treq_trans; [apply treq_park|apply treq_set_running]| |cbn; discriminate].
+        apply (KInv_kq (park s1 t')); [apply K_park, G|apply kq_set_running].
+      + eapply byst_trans; [apply byst_park_other; [exact Ht|now rewrite E1]|].
+        apply byst_exact; [reflexivity|reflexivity|intros Hk; exact Hk].
+      + eapply dq_trans; [apply dq_park|apply dq_set_running].
+    - now apply Ret.
+    - destruct inc; [now apply Ret|]. cbn [fst blocked].
+      apply (out_trans t f c a s); [exact O0|]. apply out_neutral.
+      + intros G. apply (Good_same t s _ G); try reflexivity; [cbn; discriminate|]. intros y; now repeat split.
+      + apply byst_exact; [reflexivity|reflexivity|]. intros Hk. cbn. apply in_or_app. now left.
+      + eapply dq_trans; [apply dq_call_soon|apply dq_set_running].
+    - (* CSleep *)
+      apply Ret; [|exact Nf]. apply (out_trans t f c a s); [exact O0|]. apply out_neutral.
+      + intros G. apply (Good_same t s _ G); try reflexivity; [apply G|]. intros y; now repeat split.
+      + apply byst_timer_cancel.
+      + apply dq_timer_cancel.
+    - (* CHandleWait *)
+      apply Ret; [|destruct f0; exact Nf]. apply (out_trans t f c a s); [exact O0|]. apply out_neutral.
+      + intros G. destruct f0; [|exact G]. apply (Good_same t s _ G); try reflexivity; [apply G|]. intros y; now repeat split.
+      + destruct f0; [apply byst_exact; [reflexivity|reflexivity|intros Hk; exact Hk]|apply byst_refl].
+      + apply dq_event_unwait.
+    - (* CDone: the callback is dropped *)
+      cbn [fst]. apply out_refl.
+  Qed.
+End StepOut.
+
+Section Callback.
+  Variables (t : tid) (f : fid) (c : sid).
+
+  (* a callback other than t's own wake-up, of one of the covered kinds *)
+  Definition bystander (s : st) (h : handle) : Prop :=
+    op_ok s (ARun h) = true /\ h <> HWake t f /\
+    match h with
+    | HStep t' | HWake t' _ => t' <> t /\ simple_ctl (k_ctl (tasks s t')) = true
+    | _ => True
+    end.
+
+  Lemma trk_view a b :
+    (forall y, sc_view (scopes b y) = sc_view (scopes a y)) ->
+    k_cur (tasks b t) = k_cur (tasks a t) -> k_done (tasks b t) = k_done (tasks a t) ->
+    trk t c a -> trk t c b.
+  Proof.
+    intros V Ec Ed [[D [x [Hc Hv]]] [Cc Hh]]. pose proof (V c) as E.
+    split; [|split; [now rewrite (vw_cancelled _ _ E)|now rewrite (vw_host _ _ E)]].
+    split; [now rewrite Ed|]. exists x. split; [now rewrite Ec|].
+    apply (vis_view b a c x); [|exact Hv]. intros y. pose proof (V y) as Ey.
+    now rewrite (vw_shield _ _ Ey), (vw_cancelled _ _ Ey), (vw_parent _ _ Ey).
+  Qed.
+
+  Lemma out_td_struct a t' g :
+    Tree a -> (forall x, s_host (scopes a x) <> Some t') -> t' <> t -> Out t f c a (td_struct a t' g).
+  Proof.
+    intros T Hn Ht G. set (b := td_struct a t' g).
+    assert (Es : forall y, sc_view (scopes b y) = sc_view (scopes a y) /\ s_active (scopes b y) = s_active (scopes a y)).
+    { intros y. unfold b, td_struct. destruct (k_cur (tasks a t')) as [x|]; cbn; [|now split].
+      unfold upd. destruct (Nat.eqb_spec y x); [subst|]; now split. }
+    assert (Ek : forall x, x <> t' -> tasks b x = tasks a x).
+    { intros x Hx. unfold b, td_struct. destruct (k_cur (tasks a t')); cbn; unfold upd;
+        (destruct (Nat.eqb_spec x t'); [contradiction|reflexivity]). }
+    assert (Ew : forall x, k_waiter (tasks b x) = k_waiter (tasks a x)).
+    { intros x. unfold b, td_struct. destruct (k_cur (tasks a t')); cbn; unfold upd;
+        (destruct (Nat.eqb_spec x t') as [->|]; reflexivity). }
+    assert (Em : futs b = futs a /\ nfut b = nfut a /\ ready b = ready a /\ running b = running a).
+    { unfold b, td_struct. destruct (k_cur (tasks a t')); now repeat split. }
+    destruct Em as [Ef [Enf [Er Ern]]].
+    assert (Htt : t <> t') by congruence.
+    split; [|split].
+    - constructor.
+      + apply Tree_TreeL. now apply Tree_td.
+      + apply (KInv_kq a); [apply G|]. apply kq_same; [exact Enf|exact Ef|]. intros x. left. apply Ew.
+      + rewrite Ern. apply G.
+      + intros y. destruct (Es y) as [V A]. rewrite A, (vw_host _ _ V). apply G.
+    - apply byst_exact; [now apply Ek|now rewrite Ef|now rewrite Er].
+    - intros _ Tk _. apply (trk_view a b); [intros y; apply Es|now rewrite (Ek t Htt)|now rewrite (Ek t Htt)|exact Tk].
+  Qed.
+
+  Lemma callback_out s h r :
+    reach_ok s -> k_ctl (tasks s t) <> CDone -> k_waiter (tasks s t) = Some f ->
+    ready s = h :: r -> bystander s h ->
+    Out t f c s (run_head s) /\
+    (h = HDeliver c -> Good t s -> elig_t t f s -> trk t c s -> f_st (futs (run_head s) f) <> FPend).
+  Proof.
+    intros R Nd Hw E [Hok [Hne Hk]].
+    destruct (reach_sinv s R) as [[T C] _].
+    set (s1 := set_ready s r).
+    assert (Hf : f < nfut s).
+    { destruct R as [ops [_ ->]]. apply (k_alloc _ (reach_kinv ops) t f Hw). }
+    assert (O1 : Out t f c s s1).
+    { intros G. split; [|split].
+      - apply (Good_same t s s1 G); try reflexivity; [apply G|]. intros y; now repeat split.
+      - apply byst_exact; [reflexivity|reflexivity|]. intros Hi. rewrite E in Hi. destruct Hi as [Hi|Hi]; [now elim Hne|exact Hi].
+      - intros _ Tk _. apply (trk_view s s1); auto. }
+    rewrite (run_head_cons s h r E).
+    destruct h as [t'|t' f'|c'|t'|g tm|x tm].
+    - split; [|discriminate]. destruct Hk as [Ht Hs]. apply (out_trans t f c s s1); [exact O1|].
+      now apply out_resume_simple.
+    - split; [|discriminate]. destruct Hk as [Ht Hs]. apply (out_trans t f c s s1); [exact O1|].
+      now apply out_resume_simple.
+    - cbn [fst]. split.
+      + apply (out_trans t f c s s1); [exact O1|]. apply (out_trans t f c s1 (set_running s1 None)); [apply out_set_running|].
+        apply (out_trans t f c _ (deliver_top (set_running s1 None) c')); [apply out_deliver_top|apply out_set_running].
+      + intros Ec G El Tk. inversion Ec; subst c'.
+        change (futs (set_running (deliver_top (set_running s1 None) c) None) f) with (futs (deliver_top (set_running s1 None) c) f).
+        destruct (O1 G) as [G1 _].
+        assert (Tk1 : trk t c (set_running s1 None)) by (apply (trk_view s); auto).
+        apply (deliver_hits t f (set_running s1 None) c); [now apply Good_set_running|exact El|apply Tk1].
+    - (* HTaskDone *)
+      split; [|discriminate]. cbn [fst]. fold s1. rewrite run_task_done_eq.
+      assert (Hin : In (HTaskDone t') (ready s)) by (rewrite E; now left).
+      destruct (c_td _ C t' Hin) as [A' Ed].
+      assert (Ht : t' <> t) by (intros ->; contradiction).
+      destruct (c_ok _ C t' A') as [_ [_ [_ [Kd _]]]]. specialize (Kd Ed).
+      apply (out_trans t f c s s1); [exact O1|].
+      destruct (k_group (tasks s1 t')) as [g|]; [|apply out_set_running].
+      apply (out_trans t f c s1 (set_running s1 None)); [apply out_set_running|].
+      apply (out_trans t f c _ (td_struct (set_running s1 None) t' g)); [|apply out_td_tail].
+      apply out_td_struct; [|exact Kd|exact Ht].
+      apply (Tree_treq s); [exact T|]. eapply treq_trans; [apply treq_set_ready|apply treq_set_running].
+    - (* HSleepDone *)
+      split; [|discriminate]. cbn [fst]. apply (out_trans t f c s s1); [exact O1|]. apply out_fut_complete. discriminate.
+    - (* HTimeout *)
+      split; [|discriminate]. cbn [fst]. apply (out_trans t f c s s1); [exact O1|].
+      apply (out_trans t f c s1 (set_running s1 None)); [apply out_set_running|].
+      apply (out_trans t f c _ (scope_timeout (set_running s1 None) x)); [apply out_scope_timeout|apply out_set_running].
+  Qed.
+End Callback.
